@@ -350,6 +350,7 @@ type armOut struct {
 	order    []*value
 	old      map[*value]value
 	defs     []*smt.Term
+	phis     map[*ssa.Phi]value // phi values already joined by a nested merge that ended at the same join
 }
 
 const specMaxDepth = 48
@@ -362,6 +363,7 @@ func (x *exec) runArm(fr *frame, from, start, join *ssa.BasicBlock, guard *smt.T
 	saveFail, saveReach, saveWit := len(x.failures), len(x.reached), len(x.wits)
 	saveStats := *x.stats
 	saveEnv, saveBlock, savePrev, saveResult, saveCur := fr.env, fr.block, fr.prevBlock, fr.result, fr.cur
+	saveMP := fr.mergedPhis
 	saveTop := fr.i.top
 	saveDepth := x.depth
 	st := &specState{guard: guard}
@@ -398,6 +400,7 @@ func (x *exec) runArm(fr *frame, from, start, join *ssa.BasicBlock, guard *smt.T
 		x.specStack = x.specStack[:len(x.specStack)-1]
 		x.pc = x.pc[:savePC]
 		fr.env, fr.block, fr.prevBlock, fr.result, fr.cur = saveEnv, saveBlock, savePrev, saveResult, saveCur
+		fr.mergedPhis = saveMP
 		fr.i.top = saveTop
 		x.depth = saveDepth
 		if !success {
@@ -432,6 +435,8 @@ func (x *exec) runArm(fr *frame, from, start, join *ssa.BasicBlock, guard *smt.T
 		if fr.block == join && join != nil {
 			out.pred = fr.prevBlock
 			out.env = fr.env
+			out.phis = fr.mergedPhis
+			fr.mergedPhis = nil
 			break
 		}
 		nonPhis := executePhis(fr)
@@ -577,7 +582,18 @@ func (x *exec) tryMerge(fr *frame, instr *ssa.If, c *smt.Term) (continuation, bo
 			if !isPhi {
 				break
 			}
-			m, ok := x.mergeVal(c, get(a1.env, phi.Edges[i1]), get(a2.env, phi.Edges[i2]), 0)
+			var v1, v2 value
+			if a1.phis != nil {
+				v1 = a1.phis[phi]
+			} else {
+				v1 = get(a1.env, phi.Edges[i1])
+			}
+			if a2.phis != nil {
+				v2 = a2.phis[phi]
+			} else {
+				v2 = get(a2.env, phi.Edges[i2])
+			}
+			m, ok := x.mergeVal(c, v1, v2, 0)
 			if !ok {
 				x.noMergeAt[instr] = true
 				x.lastAbort = "phi values that cannot be joined"
